@@ -21,7 +21,10 @@ META = dict(
                  'kron_dst_reshape: products are uninterpreted (mode uf) -- the result extent is literally the product term of the aligned extents',
                  'ghost traces (CNT, KRP) are functional definitions assumed in the precondition'],
     not_covered=['element values: result elements equal the defining sums of products over the contracted index ranges (composition over the view pipeline; outside per-function contracts)',
-                 'index::matmul for bounded-rank shapes (slice element type std::variant, not modelled) -- covered for fixed ranks only',
+                 'index::matmul for bounded-rank shapes (slice element type std::variant, not modelled) -- covered for fixed ranks >= 2 only',
+                 'matmul_t (first implementation) with a 1-d operand: not reachable by a contract (fixed rank 1: index::matmul does not compile -- template_reduce<len-2> with len = 1; '
+                 'bounded rank: observed natively, outside the proof: index::matmul({1},{3},{3,2},{2}) writes l_slices[-2] of a length-1 vector, AddressSanitizer stack-buffer-overflow). '
+                 'shape_matmul and the matmulv2 helpers do handle 1-d operands (proved); natively matmulv2((3,),(3,2)) = [22 28] as numpy',
                  'index::kron_dst_transpose (recursive; its instantiation chain ends in std::vector results, not modelled)',
                  'outer, vecdot, trace: no index helper of their own (compositions of broadcasting multiply / sum / diagonal: C06, C08, C04)',
                  'maybe-lifting overloads and compile-time (constant index) branches (type level)',
